@@ -62,7 +62,7 @@ class NormAngularFourierDomainExpression(NormAngularFourierDomain, Expr):
         Fourier transform."""
 
         foo = self.subs(2 * pi * f * dt)
-        result = IDTFT(foo.expr, self.var, nsym, evaluate=evaluate)
+        result = IDTFT(foo.expr, fsym, nsym, evaluate=evaluate)
 
         return self.change(result, 'discrete time', units_scale=uu.Hz,
                            **assumptions)
